@@ -177,4 +177,224 @@ theorem tle_mean_tle (mu i Ω e ω M n : ℝ) (hmu : 0 < mu) (hn : 0 < n) :
   have : mu / (mu / n ^ 2) = n ^ 2 := by field_simp
   rw [this, Real.sqrt_sq hn.le]
 
+/-! ## equinoctial -/
+
+/-- keplerian → equinoctial → keplerian (`e > 0`, `0 < i < π`): a, e, i exactly; Ω, ω, ν as the same points of the
+circle, and exactly when they lie in `[0, 2π)` (the range the code itself produces). -/
+theorem kepl_equi_kepl (mu a e i Ω ω ν : ℝ) (he : 0 < e) (hi : 0 < i ∧ i < Real.pi) :
+    ∃ Ω' ω' ν', app6 equiToKepl mu (keplToEqui mu a e i Ω ω ν) = [a, e, i, Ω', ω', ν'] ∧
+      AngEq Ω' Ω ∧ AngEq ω' ω ∧ AngEq ν' ν ∧
+      (0 ≤ Ω ∧ Ω < 2 * Real.pi → Ω' = Ω) ∧ (0 ≤ ω ∧ ω < 2 * Real.pi → ω' = ω) ∧ (0 ≤ ν ∧ ν < 2 * Real.pi → ν' = ν) := by
+  have ht : 0 < Real.tan (i / 2) := Real.tan_pos_of_pos_of_lt_pi_div_two (by linarith [hi.1]) (by linarith [hi.2])
+  set Ω' := fmod (atan2 (Real.tan (i / 2) * Real.sin Ω) (Real.tan (i / 2) * Real.cos Ω)) (2 * pi) with hΩ'
+  set ω' := fmod (atan2 (e * Real.sin (Ω + ω)) (e * Real.cos (Ω + ω)) - Ω') (2 * pi) with hω'
+  set ν' := fmod (Ω + ω + ν - Ω' - ω') (2 * pi) with hν'
+  have aΩ : AngEq Ω' Ω := (fmod_two_pi_angEq _).trans (atan2_scaled ht)
+  have aω : AngEq ω' ω := by
+    have := (fmod_two_pi_angEq (atan2 (e * Real.sin (Ω + ω)) (e * Real.cos (Ω + ω)) - Ω')).trans ((atan2_scaled he).sub aΩ)
+    simpa using this
+  have aν : AngEq ν' ν := by
+    have := (fmod_two_pi_angEq (Ω + ω + ν - Ω' - ω')).trans (((AngEq.refl (Ω + ω + ν)).sub aΩ).sub aω)
+    have h2 : Ω + ω + ν - Ω - ω = ν := by ring
+    rwa [h2] at this
+  refine ⟨Ω', ω', ν', ?_, aΩ, aω, aν, ?_, ?_, ?_⟩
+  · have hq : Real.sqrt ((Real.tan (i / 2) * Real.cos Ω) ^ 2 + (Real.tan (i / 2) * Real.sin Ω) ^ 2) = Real.tan (i / 2) :=
+      sqrt_ecs _ _ ht.le
+    have hat : 2 * Real.arctan (Real.tan (i / 2)) = i := by
+      rw [Real.arctan_tan (by linarith [hi.1, Real.pi_pos]) (by linarith [hi.2])]; ring
+    simp only [keplToEqui, app6, equiToKepl, powi, sqrt, cos, sin, tan, atan, sqrt_ecs e (Ω + ω) he.le, hq, hat, ← hΩ', ← hω', ← hν']
+  · intro h; exact AngEq.eq_of_mem_Ico (lo := 0) aΩ (by simpa using fmod_mem (x := _) two_pi_pos) (by simpa using h)
+  · intro h; exact AngEq.eq_of_mem_Ico (lo := 0) aω (by simpa using fmod_mem (x := _) two_pi_pos) (by simpa using h)
+  · intro h; exact AngEq.eq_of_mem_Ico (lo := 0) aν (by simpa using fmod_mem (x := _) two_pi_pos) (by simpa using h)
+
+/-- equinoctial → keplerian → equinoctial (`(ex, ey) ≠ 0`, `(ix, iy) ≠ 0`): a and both vectors exactly, the
+longitude as the same point of the circle. -/
+theorem equi_kepl_equi (mu a ex ey ix iy l : ℝ) (he : ex ^ 2 + ey ^ 2 ≠ 0) (hi : ix ^ 2 + iy ^ 2 ≠ 0) :
+    ∃ l', app6 keplToEqui mu (equiToKepl mu a ex ey ix iy l) = [a, ex, ey, ix, iy, l'] ∧ AngEq l' l := by
+  set Ω' := fmod (atan2 iy ix) (2 * pi) with hΩ'
+  set ω' := fmod (atan2 ey ex - Ω') (2 * pi) with hω'
+  set ν' := fmod (l - Ω' - ω') (2 * pi) with hν'
+  have aΩ : AngEq Ω' (atan2 iy ix) := fmod_two_pi_angEq _
+  have aω : AngEq ω' (atan2 ey ex - Ω') := fmod_two_pi_angEq _
+  have aΩω : AngEq (Ω' + ω') (atan2 ey ex) := by
+    have := (AngEq.refl Ω').add aω
+    have h2 : Ω' + (atan2 ey ex - Ω') = atan2 ey ex := by ring
+    rwa [h2] at this
+  have aν : AngEq ν' (l - Ω' - ω') := fmod_two_pi_angEq _
+  have hpe : 0 < ex ^ 2 + ey ^ 2 := lt_of_le_of_ne (by positivity) (Ne.symm he)
+  have hpi : 0 < ix ^ 2 + iy ^ 2 := lt_of_le_of_ne (by positivity) (Ne.symm hi)
+  have hρe : 0 < Real.sqrt (ex ^ 2 + ey ^ 2) := Real.sqrt_pos.mpr hpe
+  have hρi : 0 < Real.sqrt (ix ^ 2 + iy ^ 2) := Real.sqrt_pos.mpr hpi
+  obtain ⟨hce, hse⟩ := atan2_of_norm hρe (Real.sq_sqrt hpe.le)
+  obtain ⟨hci, hsi⟩ := atan2_of_norm hρi (Real.sq_sqrt hpi.le)
+  have htan : Real.tan (2 * Real.arctan (Real.sqrt (ix ^ 2 + iy ^ 2)) / 2) = Real.sqrt (ix ^ 2 + iy ^ 2) := by
+    rw [mul_div_cancel_left₀ _ (two_ne_zero), Real.tan_arctan]
+  refine ⟨Ω' + ω' + ν', ?_, ?_⟩
+  · simp only [keplToEqui, app6, equiToKepl, powi, sqrt, cos, sin, tan, atan, ← hΩ', ← hω', ← hν', htan, aΩω.1, aΩω.2, aΩ.1, aΩ.2,
+      hce, hse, hci, hsi, List.cons.injEq, and_true, true_and]
+    refine ⟨?_, ?_, ?_, ?_⟩ <;> field_simp
+  · have := (AngEq.refl (Ω' + ω')).add aν
+    have h2 : Ω' + ω' + (l - Ω' - ω') = l := by ring
+    rwa [h2] at this
+
+/-! ## true ↔ eccentric / hyperbolic anomaly -/
+
+theorem one_add_e_cos_pos {e ν : ℝ} (h0 : 0 ≤ e) (h1 : e < 1) : 0 < 1 + e * Real.cos ν := by
+  nlinarith [Real.neg_one_le_cos ν, Real.cos_le_one ν]
+
+theorem one_sub_e_cos_pos {e E : ℝ} (h0 : 0 ≤ e) (h1 : e < 1) : 0 < 1 - e * Real.cos E := by
+  nlinarith [Real.neg_one_le_cos E, Real.cos_le_one E]
+
+/-- keplerian → eccentric → keplerian, ellipse (`0 ≤ e < 1`): the true anomaly comes back as the same point of the
+circle, and exactly when it lies in `[0, 2π)`; the other five numbers are untouched. -/
+theorem kepl_ecc_kepl_elliptic (mu a e i Ω ω ν : ℝ) (h0 : 0 ≤ e) (h1 : e < 1) :
+    ∃ ν', app6 eccToKepl mu (keplToEcc mu a e i Ω ω ν) = [a, e, i, Ω, ω, ν'] ∧ AngEq ν' ν ∧
+      (0 ≤ ν ∧ ν < 2 * Real.pi → ν' = ν) := by
+  have hD := one_add_e_cos_pos (ν := ν) h0 h1
+  have hq2 : 0 < 1 - e ^ 2 := by nlinarith
+  have hq : 0 < Real.sqrt (1 - e ^ 2) := Real.sqrt_pos.mpr hq2
+  have hqq : Real.sqrt (1 - e ^ 2) ^ 2 = 1 - e ^ 2 := Real.sq_sqrt hq2.le
+  have hcs := Real.sin_sq_add_cos_sq ν
+  set cE := (e + Real.cos ν) / (1 + e * Real.cos ν) with hcE
+  set sE := Real.sin ν * Real.sqrt (1 - e ^ 2) / (1 + e * Real.cos ν) with hsE
+  have hunit : cE ^ 2 + sE ^ 2 = 1 := by
+    rw [hcE, hsE]; generalize Real.sqrt (1 - e ^ 2) = q at *
+    generalize Real.cos ν = c at *; generalize Real.sin ν = s at *
+    field_simp; linear_combination (s ^ 2) * hqq + (1 + (-1) * e ^ 2) * hcs
+  obtain ⟨hc, hs⟩ := atan2_unit hunit
+  have aE := fmod_two_pi_angEq (atan2 sE cE)
+  have hcos : Real.cos (fmod (atan2 sE cE) (2 * pi)) = cE := aE.1.trans hc
+  have hsin : Real.sin (fmod (atan2 sE cE) (2 * pi)) = sE := aE.2.trans hs
+  have hne : 1 - e * cE ≠ 0 := by
+    have : 1 - e * cE = (1 - e ^ 2) / (1 + e * Real.cos ν) := by rw [hcE]; field_simp; ring
+    rw [this]; positivity
+  have hcν : (cE - e) / (1 - e * cE) = Real.cos ν := by
+    rw [div_eq_iff hne, hcE]; field_simp; ring
+  have hsν : sE * Real.sqrt (1 - e ^ 2) / (1 - e * cE) = Real.sin ν := by
+    rw [div_eq_iff hne, hcE, hsE]; generalize Real.sqrt (1 - e ^ 2) = q at *
+    field_simp; linear_combination (Real.sin ν) * hqq
+  have aν : AngEq (fmod (atan2 (Real.sin ν) (Real.cos ν)) (pi * 2)) ν := (fmod_pi_two_angEq _).trans (atan2_sin_cos ν)
+  refine ⟨fmod (atan2 (Real.sin ν) (Real.cos ν)) (pi * 2), ?_, aν, ?_⟩
+  · simp only [keplToEcc, app6, eccToKepl, if_pos h1, powi, sqrt, cos, sin, ← hcE, ← hsE, hcos, hsin, hcν, hsν]
+  · intro h
+    have hm := fmod_mem (x := atan2 (Real.sin ν) (Real.cos ν)) (m := pi * 2) (by have := Real.pi_pos; simp only [pi]; linarith)
+    exact AngEq.eq_of_mem_Ico (lo := 0) aν ⟨hm.1, by simpa [mul_comm] using hm.2⟩ (by simpa using h)
+
+/-- eccentric → keplerian → eccentric, ellipse: the eccentric anomaly comes back as the same point of the circle,
+exactly when it lies in `[0, 2π)`. -/
+theorem ecc_kepl_ecc_elliptic (mu a e i Ω ω E : ℝ) (h0 : 0 ≤ e) (h1 : e < 1) :
+    ∃ E', app6 keplToEcc mu (eccToKepl mu a e i Ω ω E) = [a, e, i, Ω, ω, E'] ∧ AngEq E' E ∧
+      (0 ≤ E ∧ E < 2 * Real.pi → E' = E) := by
+  have hD := one_sub_e_cos_pos (E := E) h0 h1
+  have hDne : 1 - e * Real.cos E ≠ 0 := hD.ne'
+  have hq2 : 0 < 1 - e ^ 2 := by nlinarith
+  have hq : 0 < Real.sqrt (1 - e ^ 2) := Real.sqrt_pos.mpr hq2
+  have hqq : Real.sqrt (1 - e ^ 2) ^ 2 = 1 - e ^ 2 := Real.sq_sqrt hq2.le
+  have hcs := Real.sin_sq_add_cos_sq E
+  set cν := (Real.cos E - e) / (1 - e * Real.cos E) with hcν
+  set sν := Real.sin E * Real.sqrt (1 - e ^ 2) / (1 - e * Real.cos E) with hsν
+  have hunit : cν ^ 2 + sν ^ 2 = 1 := by
+    have key : (Real.cos E - e) ^ 2 + (Real.sin E * Real.sqrt (1 - e ^ 2)) ^ 2 = (1 - e * Real.cos E) ^ 2 := by
+      generalize Real.sqrt (1 - e ^ 2) = q at *
+      generalize Real.cos E = c at *; generalize Real.sin E = s at *
+      linear_combination (s ^ 2) * hqq + (1 + (-1) * e ^ 2) * hcs
+    rw [hcν, hsν, div_pow, div_pow, ← add_div, key, div_self (pow_ne_zero 2 hDne)]
+  obtain ⟨hc, hs⟩ := atan2_unit hunit
+  have aν := fmod_pi_two_angEq (atan2 sν cν)
+  have hcos : Real.cos (fmod (atan2 sν cν) (pi * 2)) = cν := aν.1.trans hc
+  have hsin : Real.sin (fmod (atan2 sν cν) (pi * 2)) = sν := aν.2.trans hs
+  have hne : 1 + e * cν ≠ 0 := by
+    have : 1 + e * cν = (1 - e ^ 2) / (1 - e * Real.cos E) := by rw [hcν]; field_simp; ring
+    rw [this]; positivity
+  have hcE : (e + cν) / (1 + e * cν) = Real.cos E := by
+    rw [div_eq_iff hne, hcν]; field_simp; ring
+  have hsE : sν * Real.sqrt (1 - e ^ 2) / (1 + e * cν) = Real.sin E := by
+    rw [div_eq_iff hne, hcν, hsν]; generalize Real.sqrt (1 - e ^ 2) = q at *
+    field_simp; linear_combination (Real.sin E) * hqq
+  have aE : AngEq (fmod (atan2 (Real.sin E) (Real.cos E)) (2 * pi)) E := (fmod_two_pi_angEq _).trans (atan2_sin_cos E)
+  refine ⟨fmod (atan2 (Real.sin E) (Real.cos E)) (2 * pi), ?_, aE, ?_⟩
+  · simp only [keplToEcc, app6, eccToKepl, if_pos h1, powi, sqrt, cos, sin, ← hcν, ← hsν, hcos, hsin, hcE, hsE]
+  · intro h
+    have hm := fmod_mem (x := atan2 (Real.sin E) (Real.cos E)) two_pi_pos
+    exact AngEq.eq_of_mem_Ico (lo := 0) aE ⟨hm.1, by simpa using hm.2⟩ (by simpa using h)
+
+/-- keplerian → eccentric → keplerian, hyperbola (`e > 1`, true anomaly inside the asymptotes: `1 + e cos ν > 0`). -/
+theorem kepl_ecc_kepl_hyperbolic (mu a e i Ω ω ν : ℝ) (h1 : 1 < e) (hD : 0 < 1 + e * Real.cos ν) :
+    ∃ ν', app6 eccToKepl mu (keplToEcc mu a e i Ω ω ν) = [a, e, i, Ω, ω, ν'] ∧ AngEq ν' ν ∧
+      (0 ≤ ν ∧ ν < 2 * Real.pi → ν' = ν) := by
+  have hne1 : ¬ e < 1 := not_lt.mpr h1.le
+  have hq2 : 0 < e ^ 2 - 1 := by nlinarith
+  have hq : 0 < Real.sqrt (e ^ 2 - 1) := Real.sqrt_pos.mpr hq2
+  have hqq : Real.sqrt (e ^ 2 - 1) ^ 2 = e ^ 2 - 1 := Real.sq_sqrt hq2.le
+  have hcs := Real.sin_sq_add_cos_sq ν
+  have hec : 0 < e + Real.cos ν := by nlinarith [Real.neg_one_le_cos ν]
+  set cH := (e + Real.cos ν) / (1 + e * Real.cos ν) with hcH
+  set sH := Real.sin ν * Real.sqrt (e ^ 2 - 1) / (1 + e * Real.cos ν) with hsH
+  have hcHpos : 0 < cH := by rw [hcH]; positivity
+  have hdiff : cH ^ 2 - sH ^ 2 = 1 := by
+    rw [hcH, hsH]; generalize Real.sqrt (e ^ 2 - 1) = q at *
+    generalize Real.cos ν = c at *; generalize Real.sin ν = s at *
+    field_simp; linear_combination ((-1) * s ^ 2) * hqq + (1 + (-1) * e ^ 2) * hcs
+  have ht2 : (sH / cH) ^ 2 < 1 := by
+    rw [div_pow, div_lt_one (by positivity)]; nlinarith
+  have htm : sH / cH ∈ Set.Ioo (-1 : ℝ) 1 := by
+    have := abs_lt.mp ((sq_lt_one_iff_abs_lt_one _).mp ht2)
+    exact ⟨this.1, this.2⟩
+  have hsqrt : Real.sqrt (1 - (sH / cH) ^ 2) = 1 / cH := by
+    have : 1 - (sH / cH) ^ 2 = (1 / cH) ^ 2 := by field_simp; linarith
+    rw [this, Real.sqrt_sq (by positivity)]
+  have hcosh : Real.cosh (Real.artanh (sH / cH)) = cH := by
+    rw [Real.cosh_artanh htm, hsqrt]; field_simp
+  have hsinh : Real.sinh (Real.artanh (sH / cH)) = sH := by
+    rw [Real.sinh_artanh htm, hsqrt]; field_simp
+  have hne : 1 - e * cH ≠ 0 := by
+    have : 1 - e * cH = -(e ^ 2 - 1) / (1 + e * Real.cos ν) := by rw [hcH]; field_simp; ring
+    rw [this]; exact div_ne_zero (by linarith) hD.ne'
+  have hcν : (cH - e) / (1 - e * cH) = Real.cos ν := by
+    rw [div_eq_iff hne, hcH]; field_simp; ring
+  have hsν : -(sH * Real.sqrt (e ^ 2 - 1)) / (1 - e * cH) = Real.sin ν := by
+    rw [div_eq_iff hne, hcH, hsH]; generalize Real.sqrt (e ^ 2 - 1) = q at *
+    field_simp; linear_combination (-Real.sin ν) * hqq
+  have aν : AngEq (fmod (atan2 (Real.sin ν) (Real.cos ν)) (pi * 2)) ν := (fmod_pi_two_angEq _).trans (atan2_sin_cos ν)
+  refine ⟨fmod (atan2 (Real.sin ν) (Real.cos ν)) (pi * 2), ?_, aν, ?_⟩
+  · simp only [keplToEcc, app6, eccToKepl, if_neg hne1, powi, sqrt, cos, sin, cosh, sinh, atanh, ← hcH, ← hsH, hcosh, hsinh, hcν, hsν]
+  · intro h
+    have hm := fmod_mem (x := atan2 (Real.sin ν) (Real.cos ν)) (m := pi * 2) (by have := Real.pi_pos; simp only [pi]; linarith)
+    exact AngEq.eq_of_mem_Ico (lo := 0) aν ⟨hm.1, by simpa [mul_comm] using hm.2⟩ (by simpa using h)
+
+/-- eccentric → keplerian → eccentric, hyperbola (`e > 1`): the hyperbolic anomaly is returned **exactly**, for every H. -/
+theorem ecc_kepl_ecc_hyperbolic (mu a e i Ω ω H : ℝ) (h1 : 1 < e) :
+    app6 keplToEcc mu (eccToKepl mu a e i Ω ω H) = [a, e, i, Ω, ω, H] := by
+  have hne1 : ¬ e < 1 := not_lt.mpr h1.le
+  have hq2 : 0 < e ^ 2 - 1 := by nlinarith
+  have hq : 0 < Real.sqrt (e ^ 2 - 1) := Real.sqrt_pos.mpr hq2
+  have hqq : Real.sqrt (e ^ 2 - 1) ^ 2 = e ^ 2 - 1 := Real.sq_sqrt hq2.le
+  have hch := Real.cosh_sq H
+  have hc1 : 1 ≤ Real.cosh H := Real.one_le_cosh H
+  have hD : 1 - e * Real.cosh H < 0 := by nlinarith
+  have hDne : 1 - e * Real.cosh H ≠ 0 := hD.ne
+  set cν := (Real.cosh H - e) / (1 - e * Real.cosh H) with hcν
+  set sν := -(Real.sinh H * Real.sqrt (e ^ 2 - 1)) / (1 - e * Real.cosh H) with hsν
+  have hunit : cν ^ 2 + sν ^ 2 = 1 := by
+    have key : (Real.cosh H - e) ^ 2 + (-(Real.sinh H * Real.sqrt (e ^ 2 - 1))) ^ 2 = (1 - e * Real.cosh H) ^ 2 := by
+      generalize Real.sqrt (e ^ 2 - 1) = q at *
+      generalize Real.cosh H = c at *; generalize Real.sinh H = s at *
+      linear_combination (s ^ 2) * hqq + (1 - e ^ 2) * hch
+    rw [hcν, hsν, div_pow, div_pow, ← add_div, key, div_self (pow_ne_zero 2 hDne)]
+  obtain ⟨hc, hs⟩ := atan2_unit hunit
+  have aν := fmod_pi_two_angEq (atan2 sν cν)
+  have hcos : Real.cos (fmod (atan2 sν cν) (pi * 2)) = cν := aν.1.trans hc
+  have hsin : Real.sin (fmod (atan2 sν cν) (pi * 2)) = sν := aν.2.trans hs
+  have hne : 1 + e * cν ≠ 0 := by
+    have : 1 + e * cν = (1 - e ^ 2) / (1 - e * Real.cosh H) := by rw [hcν]; field_simp; ring
+    rw [this]; exact div_ne_zero (by linarith) hD.ne
+  have hcH : (e + cν) / (1 + e * cν) = Real.cosh H := by
+    rw [div_eq_iff hne, hcν]; field_simp; ring
+  have hsH : sν * Real.sqrt (e ^ 2 - 1) / (1 + e * cν) = Real.sinh H := by
+    rw [div_eq_iff hne, hcν, hsν]; generalize Real.sqrt (e ^ 2 - 1) = q at *
+    field_simp; linear_combination (-Real.sinh H) * hqq
+  have hat : Real.artanh (Real.sinh H / Real.cosh H) = H := by
+    rw [← Real.tanh_eq_sinh_div_cosh, Real.artanh_tanh]
+  simp only [keplToEcc, app6, eccToKepl, if_neg hne1, powi, sqrt, cos, sin, cosh, sinh, atanh, ← hcν, ← hsν, hcos, hsin, hcH, hsH, hat]
+
 end BeyondVerif.C01
